@@ -1499,6 +1499,9 @@ func main() {
 	for _, s := range asubj {
 		probes += aliasProbes(s, false)
 	}
+	// 2b. large batches (13..20 operations) staging one key several times: every subject
+	bigPer, bigTotal := runBigBatches(append(append([]*subject{}, subjects...), csubjects...), th)
+	tot.transitions += bigTotal
 	// 3. CollectingDB
 	cops := buildAlphabet(ckeys, bs("a"), true)
 	for _, s := range csubjects {
@@ -1528,6 +1531,7 @@ func main() {
 	r.OutcomeN("snapshot_isolation_check", tot.snapChecks)
 	r.OutcomeN("close_reopen_check", tot.reopenChecks)
 	r.OutcomeN("cross_subject_comparison", crossN.Load())
+	r.OutcomeN("large_batch_with_repeated_key_checked", bigTotal)
 	r.Sample(map[string]any{"subject": "goleveldb", "history": []string{`Set("a\xff","x")`, `Batch{Delete(nil);Set("a",nil);WriteSync}`}, "then": "Get/Has of 9 keys, Iterator/ReverseIterator(nil,nil), once per state all 64 (start,end) pairs x 2 directions"})
 	r.Assumptions = []string{
 		"disk backends are opened without fsync for the bulk exploration (goleveldb opt.NoSync, pebble DisableWAL, bbolt NoSync) through the packages' public *WithOpts constructors; the default constructors are explored to a small depth ('[default options]')",
@@ -1539,5 +1543,5 @@ func main() {
 	}
 	r.Finish("per subject: BFS to fixpoint over the model-state graph (every reachable model state x every op: Set/SetSync/Delete/DeleteSync with nil/empty/non-empty keys and values, 0..2-op batches ended by Write/WriteSync/Close, Drain for CollectingDB), real DB brought to the state by fresh-or-wiped instance + replay; distinct = distinct (subject, model state)",
 		exhaustive, map[string]any{"states": tot.states, "transitions": tot.transitions, "traces_validated_against_impl": tot.transitions,
-			"depth": tot.depth, "subjects": per, "alias_probes": probes, "cross_subject_comparisons": crossN.Load()})
+			"depth": tot.depth, "subjects": per, "large_batches": bigPer, "large_batches_total": bigTotal, "alias_probes": probes, "cross_subject_comparisons": crossN.Load()})
 }
